@@ -129,21 +129,32 @@ def build(rng, cell, n):
     atoms = []
     part = 0
     centre = [rng.uniform(0.2, 0.8) for _ in range(3)]
+    # half of the files have residues whose numbers end in zero or share leading digits (1 / 10 / 100, 2 / 20), holding atoms of the same names
+    with_resi = rng.random() < 0.5
+    resnums = rng.sample([1, 10, 100, 2, 20, 110, 3], rng.randint(2, 4)) if with_resi else []
+    resi = 0
     for i in range(n):
         if rng.random() < 0.25:
             part = rng.choice([0, 1, 2, -1])
             lines.append('PART %d' % part)
+        if with_resi and i and i % max(2, n // (len(resnums) + 1)) == 0 and resnums:
+            resi = resnums.pop(0)
+            lines.append('RESI %d TOL' % resi)
         xyz = [round(centre[k] + rng.uniform(-1.6, 1.6) / cell[k], 5) for k in range(3)]
-        nm = 'C%d' % i
+        nm = 'C%d' % (i % 3 if with_resi else i)
+        if with_resi and any(a['name'] == nm and a['resi'] == resi for a in atoms):
+            nm = 'C%d' % (i + 10)
         lines.append('%s 1 %.5f %.5f %.5f 11.0 0.04' % (nm, *xyz))
-        atoms.append({'name': nm, 'xyz': xyz, 'part': part, 'q': False})
+        atoms.append({'name': nm, 'xyz': xyz, 'part': part, 'q': False, 'resi': resi})
     if part != 0:
         lines.append('PART 0')
+    if resi != 0:
+        lines.append('RESI 0')
     lines += ['HKLF 4', 'END']
     for j in range(rng.randint(0, 3)):
         xyz = [round(centre[k] + rng.uniform(-1.0, 1.0) / cell[k], 4) for k in range(3)]
         lines.append('Q%d 1 %.4f %.4f %.4f 11.0 0.05 %.2f' % (j + 1, *xyz, rng.uniform(0.2, 2)))
-        atoms.append({'name': 'Q%d' % (j + 1), 'xyz': xyz, 'part': 0, 'q': True})
+        atoms.append({'name': 'Q%d' % (j + 1), 'xyz': xyz, 'part': 0, 'q': True, 'resi': 0})
     return '\n'.join(lines) + '\n', atoms
 
 
@@ -169,13 +180,15 @@ def oracle_api(ctx, n):
         # named distance
         i, j = rng.sample(range(len(atoms)), 2)
         if not (atoms[i]['q'] or atoms[j]['q']):
-            got = shx.atoms.distance(atoms[i]['name'], atoms[j]['name'])
+            full = lambda a: a['name'] + ('_%d' % a['resi'] if a['resi'] or rng.random() < 0.3 else '')
+            ni, nj = full(atoms[i]), full(atoms[j])
+            got = shx.atoms.distance(ni, nj)
             ci, cj = ia[i].cart_coords, ia[j].cart_coords
             ref = math.sqrt(sum((ci[k] - cj[k]) ** 2 for k in range(3)))
             ev += 1
             if abs(got - ref) > 1e-8 or abs(got - mdist(atoms[i]['xyz'], atoms[j]['xyz'])) > 1e-6:
                 common.add_violation(ctx, 'Atoms.distance differs from the Euclidean distance of the Cartesian positions',
-                                     dict(case, a=atoms[i]['name'], b=atoms[j]['name']), ref, got)
+                                     dict(case, a=ni, b=nj), ref, got)
         # angle / torsion through real Atom objects
         real = [k for k in range(len(atoms)) if not atoms[k]['q']]
         if len(real) >= 4:
